@@ -248,6 +248,25 @@ NI static void cmd_cons(char **a, int na) {
     exact_free(in, n);
 }
 
+/* bomb TYPE SYNTAX HEX [max_stack] : C15 - decode an adversarial input, report rc and the peak heap held */
+NI static void cmd_bomb(char **a, int na) {
+    asn_TYPE_descriptor_t *td = find_type(a[1]);
+    if(!td || na < 4) { printf("bomb ERR args\n"); return; }
+    enum asn_transfer_syntax sy = syntax_by_name(a[2]);
+    unsigned char *in; size_t n = unhex(a[3], &in);
+    asn_codec_ctx_t ctx; memset(&ctx, 0, sizeof ctx);
+    long ms = na > 4 ? atol(a[4]) : -1;
+    if(ms >= 0) ctx.max_stack_size = ms;
+    ledger_reset(); ledger_on = 1;
+    void *st = 0;
+    asn_dec_rval_t rv = asn_decode(ms >= 0 ? &ctx : 0, sy, td, &st, in, n);
+    size_t peak = ledger_peak_bytes; long allocs = ledger_count; size_t big = ledger_big_request;
+    ASN_STRUCT_FREE(*td, st);
+    ledger_on = 0;
+    exact_free(in, n);
+    printf("bomb rc=%d consumed=%zu/%zu peak=%zu allocs=%ld big=%zu leak=%d\n", rv.code, rv.consumed, n, peak, allocs, big, ledger_live());
+}
+
 void cmd_mut(char **a, int na);
 void cmd_chunk(char **a, int na);
 void cmd_life(char **a, int na);
@@ -284,6 +303,7 @@ int main(int ac, char **av) {
         else if(!strcmp(a[0], "encapi")) cmd_encapi(a, na);
         else if(!strcmp(a[0], "xform")) cmd_xform(a, na);
         else if(!strcmp(a[0], "lint")) cmd_lint(a, na);
+        else if(!strcmp(a[0], "bomb")) cmd_bomb(a, na);
         else if(!strcmp(a[0], "canon2")) cmd_canon2(a, na);
         else printf("ERR unknown command %s\n", a[0]);
         alarm(0);
